@@ -66,7 +66,7 @@ CLAIMED = {
             'reweighted results carry the flag (theorem list in the evidence). The executable model is compared with pyerrors, and a table oracle '
             '{chain: {config: sample}} of the statement is evaluated on every case incl. list members on different equal-length subsets and Corr.',
             'Lean kernel; standard axioms; the final division of reweight is the C01 truediv site; generator-bounded search.', '5 C05'),
-    'C17': ('Lean 4 theorems on the record readers (decode(encode) = id for stream and chunked readers, int32 codec), on the configuration bookkeeping (renumbering of equally spaced trajectory numbers, selection by value with stride: entries and alignment) and on sort_names (permutation, numeric (r, id) lexicographic order via stability of the two-stage sort, independence of the listing order) + model/impl correspondence on record structure, renumbering, selection and name sorting + writer-as-oracle on synthetic file sets',
+    'C17': ('Lean 4 theorems on the record readers (decode(encode) = id for stream and chunked readers, int32 codec), on the configuration bookkeeping (renumbering of equally spaced trajectory numbers, selection by value with stride: entries and alignment) and on sort_names (permutation, numeric (r, id) lexicographic order via stability of the two-stage sort, independence of the listing order) and on the fit window of fit_t0 (the points fitted are the flow times within fit_range of the zero crossing, cut off at both ends, and bracket the root) + model/impl correspondence on record structure, renumbering, selection, name sorting and fit window + writer-as-oracle on synthetic file sets of every reader of the input package except bdio',
             'Proof: for every record list, payload size and number of records, reading back an encoded file returns exactly the records (stream readers of '
             'rwms / ms.dat / gfms.dat and the chunked reader of ms5_xsf); stored trajectory numbers s, s+d, ... are renumbered to consecutive configuration numbers in file '
             'order with the documented thermalisation offset; the selection data[i0 : i1+1][::step] with indices found by value returns entry j = position i0 + j*step '
